@@ -469,3 +469,58 @@ def walk(cmds, outs, decode=None, start_db=None, sort_catalog=False, accounting=
                 report("wf", p)
             continue
     return findings
+
+
+# ---- deterministic scenarios: the interplay of string sharing, slot reuse, rejected statements and saves ----------------
+def scenario_histories(rng, raw=False):
+    """a fixed family of short histories (independent of the random stream): shared strings assigned by one UPDATE and
+    released row by row, UPDATE to the value a cell already holds, pool slots freed, saved and reused, UPDATEs rejected
+    for a duplicate key after some matching rows, each with a save / reopen at every step.  raw=True also records the
+    saved bytes after every flush."""
+    from pkgspec import mk
+    out = []
+    K = lambda v: ("bin", "eq", ("col", "K"), ("lit", v))
+    modes = ["flush", "into_inner", "drop"]
+
+    def step(h, j):
+        h.obs()
+        if raw:
+            h.flush(); h.raw()
+        h.reopen(modes[j % 3]); h.obs()
+        if raw:
+            h.flush(); h.raw()
+    for j in range(3):
+        # one UPDATE gives every row the same new string; rows then go one by one
+        h = History(rng, j)
+        h.add_table("T", [mk("K", "i16", pk=True), mk("V", ("str", 0), null=True), mk("W", ("str", 0), null=True)])
+        h.insert("T", rows=[[1, "a", "x"], [2, "b", "x"], [3, "c", None], [4, "a", "same"]])
+        step(h, j)
+        h.update("T", ups=[("V", "same")], cond=None); step(h, j)
+        h.delete("T", cond=K(1)); step(h, j)
+        h.update("T", ups=[("V", "same"), ("W", "same")], cond=None); step(h, j)        # V already holds it
+        h.delete("T", cond=K(2)); step(h, j)
+        h.update("T", ups=[("W", "x")], cond=K(3)); step(h, j)
+        h.delete("T", cond=None); step(h, j)
+        out.append(("shared-update-%d" % j, h))
+        # a slot is freed, the file saved, the slot reused by another string, by the same string, by a longer one
+        h = History(rng, j)
+        h.add_table("T", [mk("K", "i16", pk=True), mk("V", ("str", 0), null=True)])
+        h.insert("T", rows=[[1, "first"], [2, "second"], [3, "third"]]); step(h, j)
+        h.delete("T", cond=K(2)); step(h, j)
+        h.insert("T", rows=[[4, "reuse"]]); step(h, j)
+        h.update("T", ups=[("V", None)], cond=K(1)); step(h, j)
+        h.insert("T", rows=[[5, "first"], [6, "a much longer string than the one that was here before"]]); step(h, j)
+        h.update("T", ups=[("V", "third")], cond=None); step(h, j)
+        out.append(("slot-reuse-%d" % j, h))
+        # UPDATEs of the key that must be rejected as a whole, wherever the conflicting row sits
+        h = History(rng, j)
+        h.add_table("T", [mk("K", "i16", pk=True), mk("V", ("str", 0), null=True)])
+        h.insert("T", rows=[[1, "a"], [2, "b"], [3, "c"], [4, "d"]]); step(h, j)
+        h.update("T", ups=[("K", 4), ("V", "moved")], cond=("bin", "le", ("col", "K"), ("lit", 2))); step(h, j)   # two rows -> one key
+        h.update("T", ups=[("K", 3), ("V", "moved")], cond=K(1)); step(h, j)          # collides with a later row
+        h.update("T", ups=[("K", 1), ("V", "moved")], cond=K(4)); step(h, j)          # collides with an earlier row
+        h.update("T", ups=[("K", 9), ("V", "moved")], cond=("bin", "ge", ("col", "K"), ("lit", 3))); step(h, j)
+        h.update("T", ups=[("K", 7)], cond=K(2)); step(h, j)                            # accepted: order changes
+        h.insert("T", rows=[[8, "n1"], [9, "n2"], [8, "dup"]]); step(h, j)              # rejected batch with new strings
+        out.append(("key-updates-%d" % j, h))
+    return out
